@@ -20,3 +20,68 @@ package capnp
 //@   props C11
 //@   partial nilmap
 //@   requires p != nil && from != nil && from.f.promise != nil && from.f.promise != p
+
+// ---------------------------------------------------------------- lock-discipline sweep (PARTIAL)
+// Lock typestate only: every Lock is of a mutex this call does not hold, every Unlock of one it
+// holds, and on every return every mutex is as on entry.
+
+//@ func Promise.Fulfill
+//@   props C11
+//@   locktypestate
+//@   partial lock
+//@   requires p != nil && nolocks()
+
+//@ func Promise.Reject
+//@   props C11
+//@   locktypestate
+//@   partial lock
+//@   requires p != nil && nolocks()
+
+//@ func Promise.resolve
+//@   props C11
+//@   locktypestate
+//@   partial lock
+//@   requires p != nil && onlyheld(&p.mu)
+//@   ensures onlyheld(&p.mu)
+//@   loop 0 "range p.clients"
+//@     invariant nolocks()
+//@   loop 1 "range row"
+//@     invariant nolocks()
+//@   loop 2 "range p.signals"
+//@     invariant onlyheld(&p.mu)
+
+//@ func Promise.ReleaseClients
+//@   props C11
+//@   locktypestate
+//@   partial lock
+//@   requires p != nil && nolocks()
+//@   loop 0 "p.isJoined()"
+//@     invariant p != nil && onlyheld(&p.mu)
+//@   loop 1 "range clients"
+//@     invariant nolocks()
+//@   loop 2 "range row"
+//@     invariant nolocks()
+
+//@ func Future.Struct -> s, err
+//@   props C11
+//@   locktypestate
+//@   partial lock
+//@   requires f != nil && f.promise != nil && nolocks()
+//@   loop 0 "p.isJoined()"
+//@     invariant p != nil && onlyheld(&p.mu)
+
+//@ func Answer.PipelineSend -> a, rel
+//@   props C11
+//@   locktypestate
+//@   partial lock
+//@   requires ans != nil && ans.f.promise != nil && nolocks()
+//@   loop 0 "for"
+//@     invariant p != nil && onlyheld(&p.mu)
+
+//@ func Answer.PipelineRecv -> pc
+//@   props C11
+//@   locktypestate
+//@   partial lock
+//@   requires ans != nil && ans.f.promise != nil && nolocks()
+//@   loop 0 "for"
+//@     invariant p != nil && onlyheld(&p.mu)
